@@ -672,19 +672,27 @@ def rule_R5(ctx, repo, flow):
         ctx.check(ok and popped, "R5", "_set_params:whole-list", "whole list is set from params.pop(attr) when present",
                   "whole-list step is not `if attr in params: setattr(self, attr, params.pop(attr))`", ctx.loc(mod, n_whole.stmt))
         # replacement: only names without the separator that are component names; value popped
-        conds = g.guards_of(n_repl)
+        from ..boolx import Atomizer, PathConditions, implies, neg as bneg, atom as batom, atoms_of, FALSE as BFALSE, disj as bdisj
+        pc = PathConditions(sp, Atomizer(), mark=lambda st: any(astq.call_name(c) == "_replace_estimator" for c in astq.calls(st))
+                            and not isinstance(st, (ast.For, ast.If, ast.While)))
+        cond = BFALSE
+        for st_, c_ in pc.marked:
+            cond = bdisj(cond, c_)
+        sep_atoms = [a for a in atoms_of(cond) if a.startswith("in('__', ")]
+        subj = sep_atoms[0][len("in('__', "):-1] if len(sep_atoms) == 1 else None
+        name_atoms = sorted(a for a in atoms_of(cond) if subj is not None and a.startswith("in(%s, " % subj))
         sep_ok = False
-        for t, br in conds:
-            for sub in ([t] if not isinstance(t, ast.BoolOp) else t.values):
-                if isinstance(sub, ast.Compare) and len(sub.ops) == 1 and isinstance(sub.ops[0], ast.NotIn) \
-                        and astq.const_value(sub.left) == "__" and br is True:
-                    sep_ok = True
+        if len(sep_atoms) == 1 and name_atoms:
+            r1, _ = implies(cond, bneg(batom(sep_atoms[0])))
+            r2, _ = implies(cond, batom(name_atoms[0]))
+            sep_ok = bool(r1) and bool(r2)
         rc = [c for c in n_repl.calls() if astq.call_name(c) == "_replace_estimator"][0]
         b = astq.bind_call(meta.methods["_replace_estimator"], rc, skip_self=True)
         pop_ok = b is not None and isinstance(b.get("new_val"), ast.Call) and astq.call_name(b["new_val"]) == "pop" \
             and dotted(b.get("attr")) == "attr"
-        ctx.check(sep_ok and pop_ok, "R5", "_set_params:replacement", "components are replaced only for names without `__`, value popped",
-                  "component replacement is not restricted to names without `__` / does not consume the entry", ctx.loc(mod, n_repl.stmt))
+        ctx.check(sep_ok and pop_ok, "R5", "_set_params:replacement", "components are replaced only for names without `__` that are component names, value popped",
+                  "component replacement is not restricted to component names without `__` (condition: %s) / does not consume the entry" % (
+                      __import__("sa.boolx", fromlist=["show"]).show(cond)), ctx.loc(mod, n_repl.stmt))
         # super().set_params(**params) and returns self
         sc = [c for c in n_super.calls() if astq.call_name(c) == "set_params"][0]
         ok = any(k.arg is None and dotted(k.value) == "params" for k in sc.keywords)
@@ -727,23 +735,23 @@ def rule_R5(ctx, repo, flow):
     # _check_names: three rejecting branches
     cn = repo.func(META, "_HeterogenousMetaEstimator._check_names")
     g2 = CFG(cn)
+    n_raise = sum(1 for n in g2.nodes if n.id in g2.reachable() and isinstance(n.stmt, ast.Raise))
     kinds = set()
-    for t in g2.nodes:
-        if t.kind == "test" and isinstance(t.stmt, ast.If) and block_always_raises(t.stmt.body):
-            test = t.stmt.test
-            if isinstance(test, ast.Name):
-                rd = _reaching_def(cn.body, t.stmt, test.id)
-                test = rd if rd is not None else test
-            src = ast.dump(astq.inline_locals(cn, test))
-            if "'set'" in src and "'len'" in src:
+    for n in astq.walk_no_nested(cn):
+        if isinstance(n, ast.Compare) and len(n.ops) == 1:
+            src = astq.canon(n)
+            if "len(set(names))" in src and "len(names)" in src and isinstance(n.ops[0], (ast.NotEq, ast.Lt, ast.Gt, ast.Eq)):
                 kinds.add("unique")
-            elif "get_params" in src and "intersection" in src:
-                kinds.add("ctor-conflict")
-            elif "'__'" in src:
+            if isinstance(n.ops[0], (ast.In, ast.NotIn)) and astq.const_value(n.left) == "__":
                 kinds.add("separator")
-    ctx.check(kinds == {"unique", "ctor-conflict", "separator"}, "R5", "_check_names",
+        if isinstance(n, ast.Call) and astq.call_name(n) in ("intersection", "isdisjoint") and "get_params" in astq.canon(n):
+            kinds.add("ctor-conflict")
+        if isinstance(n, ast.BinOp) and isinstance(n.op, ast.BitAnd) and "get_params" in astq.canon(n):
+            kinds.add("ctor-conflict")
+    ctx.check(kinds == {"unique", "ctor-conflict", "separator"} and n_raise >= 3, "R5", "_check_names",
               "rejects duplicate names, names equal to constructor arguments, names containing `__`",
-              "_check_names rejecting branches found: %s (need unique, ctor-conflict, separator)" % sorted(kinds), ctx.loc(mod, cn))
+              "_check_names: tests found %s, %d raise sites (need unique, ctor-conflict, separator with one rejection each)" % (sorted(kinds), n_raise),
+              ctx.loc(mod, cn))
     # composites: get_params / set_params pass the same attribute, which is a constructor parameter (or property over one)
     n = 0
     for c in repo.subclasses(meta):
